@@ -53,7 +53,7 @@ func runC05(c *Ctx, r *Report, tier string) {
 	}
 	callers, _ := c.callersOf(cd)
 	for _, cs := range callers {
-		r.Check(strings.HasPrefix(c.fname(cs.Fn), "(*Parser).ParseArgs$"), "ORDER", c.fname(cs.Fn), "caller of clearDefault", c.ipos(cs.Call), "only the defaults pass of ParseArgs", "clearDefault called from "+c.fname(cs.Fn))
+		r.Check(cs.Fn.Parent() != nil && c.actsForC(cs.Fn, pa), "ORDER", c.fname(cs.Fn), "caller of clearDefault", c.ipos(cs.Call), "only the defaults pass of ParseArgs", "clearDefault called from "+c.fname(cs.Fn))
 	}
 
 	// ---- CLEAR
@@ -167,7 +167,8 @@ func runC05(c *Ctx, r *Report, tier string) {
 	for _, s := range c.storesTo(crbs) {
 		fn := c.fname(s.Fn)
 		v := c.term(s.Store.Val)
-		ok := (v == "true" && (strings.HasPrefix(fn, "(*Parser).ParseArgs$") || strings.HasPrefix(fn, "(*IniParser).parse$"))) || (v == "false" && fn == "(*Option).Set")
+		inClosureOf := func(anchor *ssa.Function) bool { return anchor != nil && s.Fn.Parent() != nil && c.actsForC(s.Fn, anchor) }
+		ok := (v == "true" && (inClosureOf(pa) || inClosureOf(c.Fn("(*IniParser).parse")))) || (v == "false" && fn == "(*Option).Set")
 		r.Check(ok, "FLAGS", fn, "store clearReferenceBeforeSet = "+trunc(v, 60), c.ipos(s.Store), "armed with the constant true by the two parse entry passes, cleared by Set", "clearReferenceBeforeSet stored as "+trunc(v, 80)+" in "+fn)
 	}
 	arm := c.isCallPassingClosureThat("(*Command).eachOption", func(in ssa.Instruction) bool {
@@ -333,6 +334,28 @@ func runC05(c *Ctx, r *Report, tier string) {
 				}
 			}
 		}
+		// equivalent form: the namespaces are collected outermost-first (each one PREpended) and joined with the delimiter
+		for _, in := range c.instrs(fn, c.isCallTo("strings.Join")) {
+			call := in.(*ssa.Call)
+			sep := c.term(call.Call.Args[1])
+			okSep := name == "(*Option).EnvKeyWithNamespace" && strings.Contains(sep, "Parser.EnvNamespaceDelimiter(") || name == "(*Option).LongNameWithNamespace" && strings.Contains(sep, "Parser.NamespaceDelimiter(")
+			okPre := false
+			if ph, ok := c.resolve(call.Call.Args[0]).(*ssa.Phi); ok {
+				for _, o := range c.originsOf(ph, in) {
+					ap, ok := o.Val.(*ssa.Call)
+					if !ok || c.calleeName(ap.Common()) != "append" || len(ap.Call.Args) != 2 {
+						continue
+					}
+					es := sliceLitElems(ap.Call.Args[0])
+					if len(es) == 1 && (strings.HasPrefix(c.term(es[0]), "Group.EnvNamespace(") || strings.HasPrefix(c.term(es[0]), "Group.Namespace(")) && c.resolve(ap.Call.Args[1]) == ssa.Value(ph) {
+						okPre = true
+					}
+				}
+			}
+			if okSep && okPre {
+				okCat = true
+			}
+		}
 		r.Check(okCat, "ENVKEY", name, "key = namespace + parser delimiter + key", c.pos(fn.Pos()), "prepends the group's namespace and the parser's delimiter", "the namespace concatenation does not use the group's namespace field and the parser's delimiter")
 		// the concatenating walk goes all the way up: it is left only when the walk variable is nil
 		// (a level without a namespace is skipped, not a reason to stop)
@@ -342,6 +365,11 @@ func runC05(c *Ctx, r *Report, tier string) {
 				for _, in := range b.Instrs {
 					if bo, ok := in.(*ssa.BinOp); ok && bo.Op.String() == "+" && (strings.HasPrefix(c.term(bo), "((Group.EnvNamespace(") || strings.HasPrefix(c.term(bo), "((Group.Namespace(")) {
 						hasCat = true
+					}
+					if ap, ok := in.(*ssa.Call); ok && c.calleeName(ap.Common()) == "append" && len(ap.Call.Args) == 2 {
+						if es := sliceLitElems(ap.Call.Args[0]); len(es) == 1 && (strings.HasPrefix(c.term(es[0]), "Group.EnvNamespace(") || strings.HasPrefix(c.term(es[0]), "Group.Namespace(")) {
+							hasCat = true
+						}
 					}
 				}
 			}
